@@ -160,6 +160,7 @@ type Machine struct {
 	wgs             map[*Value]*wgState
 	pools           map[*Value]*poolState
 	onces           map[*Value]bool
+	syncMaps        map[*Value][]syncMapEntry
 	aborted         bool
 	inInit          bool
 	settling        bool
